@@ -27,7 +27,9 @@ def set : Map κ ν → κ → ν → Map κ ν
   | [], k, v => [(k, v)]
   | (k', v') :: r, k, v => if k' = k then (k, v) :: r else (k', v') :: set r k v
 
-def del (m : Map κ ν) (k : κ) : Map κ ν := m.filter (fun p => p.1 ≠ k)
+def del : Map κ ν → κ → Map κ ν
+  | [], _ => []
+  | (k', v) :: r, k => if k' = k then del r k else (k', v) :: del r k
 
 end Map
 
